@@ -60,8 +60,8 @@ Access(v) ==
     /\ LET o == AccessOutcome(v, resStore, resTag, attrs, shape)
            new == Needs(v) \ resStore
        IN /\ last' = << v, o >>
-          /\ resStore' = IF o = "raises" THEN resStore ELSE resStore \cup Needs(v)
-          /\ resTag' = IF o = "raises" THEN resTag
+          /\ resStore' = IF o = "raises" \/ v \in resStore THEN resStore ELSE resStore \cup Needs(v)
+          /\ resTag' = IF o = "raises" \/ v \in resStore THEN resTag
                        ELSE [ w \in Vars |-> IF w \in new
                                              THEN AccessOutcome(w, resStore, resTag, attrs, shape)
                                              ELSE resTag[w] ]
